@@ -1377,7 +1377,7 @@ class Wtp:
                         if is_numbered_arg_name(k):
                             k = int(k)
                         else:
-                            k = re.sub(r"\s+", " ", k).strip()
+                            k = k.strip()
                         v = argmap.get(k, None)
                         if v is not None:
                             parts.append(v.removesuffix("\n"))
@@ -1605,7 +1605,7 @@ class Wtp:
                             else:
                                 self.expand_stack.append("ARGNAME")
                                 k = expand_recurse(k, parent, True)
-                                k = re.sub(r"\s+", " ", k).strip()
+                                k = k.strip()
                                 self.expand_stack.pop()
                                 if is_numbered_arg_name(k):
                                     # the name was computed ({{t|{{n}}=x}})
